@@ -3,8 +3,9 @@ from .. import core, wsgen
 from .common import Run, split_spec, corpus_cases, generic_replay, parse_list
 
 PROP = "C05"
-MODULE = "PLS.Props.C05"
-THEOREMS = ["PLS.C05_names_nodup", "PLS.C05_mem_available", "PLS.C05_pick_is_resolve", "PLS.C05_statement_holds"]
+MODULE = "PLS.Props.C05H"     # imports PLS.Props.C05
+THEOREMS = ["PLS.C05_names_nodup", "PLS.C05_mem_available", "PLS.C05_pick_is_resolve", "PLS.C05_statement_holds",
+            "PLS.C05_gotoOrDef_extends_goto", "PLS.C05_handlers_one_definition", "PLS.C05_definition_none"]
 RULE = ("generated workspaces (as C01); for every file: the per-file view (get_available_fixtures) is compared entry "
         "by entry with find_closest_definition for every fixture name, and resolve_fixture_for_file (outgoing calls) "
         "with the same; names must be unique. Pure cross-feature comparison of the implementation's own answers + "
